@@ -34,12 +34,12 @@ Theorem rabin_action_refines zk yki xkijr :
 Proof.
   unfold rabin_action, rabin_action_k. cbv beta zeta.
   (* rho_1 *)
-  match goal with |- context [fold_left ?f (tl zk) ?a] =>
-    assert (H1 : Sub obm (fst (fold_left f (tl zk) a))) end.
+  match goal with |- context [fold_left ?f zk ?a] =>
+    assert (H1 : Sub obm (fst (fold_left f zk a))) end.
   { apply (fold_left_inv (fun p : bdd * bdd => Sub obm (fst p))); [apply Sub_bfalse|].
     intros [r basin] z Hr. cbn [fst]. apply Sub_bor; [exact Hr|].
     apply Sub_band_l, Sub_band_r, ca_sub'. }
-  destruct (fold_left _ (tl zk) _) as [rho_1 b1]. cbn [fst] in H1.
+  destruct (fold_left _ zk _) as [rho_1 b1]. cbn [fst] in H1.
   (* rho_2..4 *)
   match goal with |- context [fold_left ?f (combine (combine zk yki) xkijr) ?a] =>
     assert (H2 : let p := fold_left f (combine (combine zk yki) xkijr) a in
